@@ -120,6 +120,11 @@ class Names:
         self._by_id[id(obj)] = name
         self._keep.append(obj)
 
+    def drop(self, obj):
+        """Forget obj (the harness deliberately lets it be garbage-collected)."""
+        self._by_id.pop(id(obj), None)
+        self._keep = [o for o in self._keep if o is not obj]
+
     def of(self, obj):
         if obj is None:
             return "<None>"
@@ -161,7 +166,7 @@ def check_structure(dc, names, removed_data=(), removed_groups=()):
     for d in datasets:
         dn = names.of(d)
         per_group = [0] * len(groups)
-        for s in d.subsets:
+        for s in getattr(d, "subsets", ()):
             g = getattr(s, "group", None)
             if not isinstance(s, GroupedSubset) or g is None:
                 bad.append(("ungrouped_subset_on_dataset", {}, {"dataset": dn, "subset": repr(s)}))
@@ -198,7 +203,7 @@ def check_structure(dc, names, removed_data=(), removed_groups=()):
             if getattr(s, "group", None) is not g:
                 bad.append(("group_lists_subset_of_other_group", {}, {"group_index": i}))
         # every subset that claims membership shares selection, label and style with the group
-        claimed = [s for d in datasets for s in d.subsets if getattr(s, "group", None) is g]
+        claimed = [s for d in datasets for s in getattr(d, "subsets", ()) if getattr(s, "group", None) is g]
         for s in claimed + [m for m in members if not is_in(m, claimed)]:
             if s.subset_state is not g.subset_state:
                 bad.append(("member_selection_differs_from_group", {}, {"group_index": i, "dataset": names.of(s.data)}))
@@ -209,7 +214,7 @@ def check_structure(dc, names, removed_data=(), removed_groups=()):
     for d in removed_data:
         if is_in(d, datasets):
             continue
-        for s in d.subsets:
+        for s in getattr(d, "subsets", ()):
             g = getattr(s, "group", None)
             if g is not None and is_in(g, groups):
                 bad.append(("removed_dataset_keeps_member_subset", {"listed_by_group": is_in(s, g.subsets)},
@@ -243,7 +248,7 @@ def snapshot(dc, names, edit_mode):
     for g in groups:
         members = {}
         for d in datasets:
-            members[names.of(d)] = [mask_of(s) for s in d.subsets if getattr(s, "group", None) is g]
+            members[names.of(d)] = [mask_of(s) for s in getattr(d, "subsets", ()) if getattr(s, "group", None) is g]
         listed = sorted([names.of(s.data) if is_in(s.data, datasets) else "<absent>", bool(is_in(s.data, datasets) and is_in(s, s.data.subsets))]
                         for s in g.subsets)
         # subsets the group lists but that are attached to nothing are not session state a user can see
@@ -251,7 +256,7 @@ def snapshot(dc, names, edit_mode):
         gl.append({"members": members, "listed": listed})
     foreign = {}
     for d in datasets:
-        n = sum(1 for s in d.subsets if not is_in(getattr(s, "group", None), groups))
+        n = sum(1 for s in getattr(d, "subsets", ()) if not is_in(getattr(s, "group", None), groups))
         if n:
             foreign[names.of(d)] = n
     edit = []
